@@ -1588,6 +1588,35 @@ func r20_1(c *Ctx) {
 	}
 	crd := P.Fn("(*Connection).read")
 	good := false
+	if crd != nil && len(crd.Params) >= 2 {
+		// the parser reads the response body itself: a reader put in between (a byte limit, another buffer)
+		// changes how much is read and when the stream seems to end
+		direct, n := true, 0
+		for _, rf := range regionFuncs(crd) {
+			eachInstr(rf, func(in ssa.Instruction) {
+				if call, ok := isModCall(in, "parser.New"); ok {
+					n++
+					if !(call.Call.Args[0] == ssa.Value(crd.Params[1]) || carriesOnly(call.Call.Args[0], crd.Params[1])) {
+						direct = false
+					}
+				}
+			})
+		}
+		for _, af := range crd.AnonFuncs {
+			eachInstrDeep(af, func(in ssa.Instruction) {
+				if call, ok := isModCall(in, "parser.New"); ok && af.Parent() == crd {
+					n++
+					if !(call.Call.Args[0] == ssa.Value(crd.Params[1]) || carriesOnly(call.Call.Args[0], crd.Params[1])) {
+						direct = false
+					}
+				}
+			})
+		}
+		if n > 0 {
+			c.check(direct, fnLabel(crd)+":parser-reads-the-body-itself", P.pos(crd.Pos()), "the parser is built on the reader handed to Connection.read",
+				"the parser is built on another reader than the one handed to Connection.read (a wrapper that limits, buffers or transforms the body): bytes that belong to no event (comments, blank lines) or to earlier events count against the wrapper, and the stream ends or an event is lost although every event is small")
+		}
+	}
 	if crd != nil {
 		for _, af := range crd.AnonFuncs {
 			eachInstrDeep(af, func(in ssa.Instruction) {
@@ -1927,6 +1956,8 @@ func init() {
 		add(id, "R20.6 the reconnection code calls no random-number function that panics on a non-positive argument without having tested the argument (the interval it is computed from is set by the server's retry field).", "R20.6")
 	}
 	add("C11", "R12.2 is claimed here too: every Connect call starts with a fresh backoff controller, so retries already used (or time already elapsed) by an earlier call or since the connection was created do not shorten this call's schedule.", "R12.2")
+	add("C05", "R09.2 is claimed here too: a collection run with a clock reading ahead of the Put's drops events a reconnecting client has not yet received.", "R09.2")
+	add("C15", "R02.1 is claimed here too: the digits of a retry value are written from storage owned by the call (a shared buffer lets overlapping encodings rewrite each other's digits).", "R02.1")
 	add("C06", "R07.4 is claimed here too: \"Joe does not panic\" for every interleaving with Shutdown rests on the close of j.done being protected against a second, concurrent close.", "R07.4")
 	for _, id := range []string{"C04", "C05", "C08", "C09"} {
 		add(id, "R03.7 is claimed here too: the replayers choose what to replay with the same topicsIntersect as the live fan-out.", "R03.7")
